@@ -19,6 +19,9 @@ inline EncCase enc_from(const Case &c)
   e.key = c.getb("key");
   e.key.resize(16);
   e.seed = c.getb("seed");
+  for (auto &x : e.seed) // the seed is passed as a C string: NUL bytes are not part of the domain
+    if (x == 0)
+      x = 0x5a;
   e.cmode = (int)c.geti("cmode");
   e.hmode = (int)c.geti("hmode");
   e.T = (int)c.geti("T", 4);
